@@ -382,8 +382,14 @@ def gen_op(rng: random.Random, case: F.Case, tracks, kinds: list[str], always_re
         if not pixels:
             pixels = [p for p in range(t * frame, (t + 1) * frame) if int(seg[p]) != value
                       and (int(seg[p]) == 0 or int(seg[p]) in g)][:1]
-        if not pixels:
+        if not pixels and case.spec.get("orphan_labels"):
             return {"op": "undo"}
+        # (an empty stroke — nothing to change in an empty frame — is a legitimate zero-edit action)
+        if value == 0 and rng.random() < 0.12:
+            # the eraser on empty space only: a successful top-level action without any sub-edit
+            bg = [p for p in range(t * frame, (t + 1) * frame) if int(seg[p]) == 0]
+            if bg:
+                pixels = sorted(rng.sample(bg, rng.randint(1, min(3, len(bg)))))
         if value == 0 and T > 1 and rng.random() < 0.25 and not case.spec.get("orphan_labels"):
             # an ERASE stroke that spans a second frame (a labels layer edited in one more dimension):
             # accepted by the action; each group is handled in its own frame
